@@ -547,7 +547,7 @@ class Flat(Stream):
         self.cover = {}
 
     def gen(self, rng, tier):
-        n = 60 if tier == 'quick' else 1200
+        n = 40 if tier == 'quick' else 1200
         out = []
         for k in KINDS:                       # every setter of every class at least twice per run
             for _ in range(2):
@@ -725,7 +725,7 @@ class Deep(Stream):
         self.cover = {}
 
     def gen(self, rng, tier):
-        n = 70 if tier == 'quick' else 1500
+        n = 50 if tier == 'quick' else 1500
         out = []
         for i in range(n):
             kind = rng.choice(['node'] * 6 + ['service'] * 3 + ['interface', 'interface', 'link', 'component'])
@@ -948,7 +948,7 @@ class Element(Stream):
         return ops
 
     def gen(self, rng, tier):
-        n = 120 if tier == 'quick' else 3000
+        n = 100 if tier == 'quick' else 3000
         out = []
         kinds = self._kinds()
         # every settable property of every element class: set, get, unset, get
